@@ -806,3 +806,137 @@ pub fn lzma2_source_fails_k0() {
 pub fn lzma2_source_fails_k3() {
     lzma2_source_fails::<3>()
 }
+
+/// Two LZMA chunks: the second of class C2 (0 = nothing reset, 1 = state reset, 2 = state +
+/// props, 3 = everything). With abstract symbols the "decoder state" that is carried or reset is
+/// observed through reset_state calls and through the properties in effect.
+fn two_lzma_chunks<const C2: usize>() {
+    let mut t = Tape::<48>::new();
+    let b1: [u8; 8] = t.bytes::<8>();
+    let b2: [u8; 8] = t.bytes::<8>();
+    let mut f = [0u8; 40];
+    let mut n = 0usize;
+    // chunk 1: class 3, props 0x5D (lc3 lp0 pb2), one 2-byte literal
+    f[n] = 0xE0;
+    f[n + 1] = 0;
+    f[n + 2] = 0;
+    f[n + 3] = 0;
+    f[n + 4] = 6;
+    f[n + 5] = 0x5D;
+    n += 6;
+    let mut i = 0;
+    while i < 7 {
+        f[n] = b1[i];
+        n += 1;
+        i += 1;
+    }
+    // chunk 2: class C2, one 3-byte literal, props 0x00 when present
+    f[n] = 0x80 | ((C2 as u8) << 5);
+    f[n + 1] = 0;
+    f[n + 2] = 0;
+    f[n + 3] = 0;
+    f[n + 4] = 7;
+    n += 5;
+    if C2 >= 2 {
+        f[n] = 0x00;
+        n += 1;
+    }
+    let mut j = 0;
+    while j < 8 {
+        f[n] = b2[j];
+        n += 1;
+        j += 1;
+    }
+    f[n] = 0;
+    let end_at = n;
+    f[n + 1] = 0x03;
+    n += 2;
+    let mut dec = mk_decoder([script(2, K_LIT), script(3, K_LIT), script(20, K_LIT), script(20, K_LIT)]);
+    let mut rd = ArrReader::<40>::new(f, n);
+    let mut sink = RecSink::<8>::new();
+    let r = dec.decompress(&mut rd, &mut sink);
+    let ok = r.is_ok();
+    forget(r);
+    vassert!(ok, "lzma2: two well-formed LZMA chunks decode");
+    vassert!(sink.len == 2 && sink.buf[0] == b1[5] ^ b1[6] && sink.buf[1] == b2[5] ^ b2[7], "lzma2: output of both chunks, in order (the second chunk's target is window length + its own size)");
+    let resets = crate::decode::lzma::verif_h::reset_count(&dec.lzma_state);
+    vassert!(resets == 1 + if C2 >= 1 { 1 } else { 0 }, "lzma2: the decoder state is reset exactly by the chunks that ask for it and carried otherwise");
+    let p = dec.lzma_state.lzma_props;
+    if C2 >= 2 {
+        vassert!(p.lc == 0 && p.lp == 0 && p.pb == 0, "lzma2: new properties replace the old ones");
+    } else {
+        vassert!(p.lc == 3 && p.lp == 0 && p.pb == 2, "lzma2: properties of an earlier chunk stay in effect (also across a state reset without new props)");
+    }
+    vassert!(sink.writes == if C2 == 3 { 3 } else { 2 }, "lzma2: dictionary reset only on class 3");
+    vassert!(rd.pos == end_at + 1, "lzma2: reader left just after the end control byte");
+    vcover!(true, "end_reached");
+    forget(dec);
+}
+
+//@ harness props=C02,C11,C17 tier=quick unwind=6 unwindset=process_mode:5,decompress:5,default_read_exact:4,two_lzma_chunks:12 mem_gb=6 timeout=600 native=no
+//@ bound: LZMA2 stream of two LZMA chunks (first: class 3 with props 0x5D; second: class 0), one abstract literal each, payloads symbolic; end byte + trailing byte
+#[cfg_attr(kani, kani::proof)]
+#[cfg_attr(kani, kani::stub(std::fmt::format, crate::verif_common::stub_format))]
+#[cfg_attr(kani, kani::stub(std::io::Error::is_interrupted, crate::verif_common::stub_not_interrupted))]
+#[cfg_attr(kani, kani::stub(crate::decode::lzma::DecoderState::process_next_inner, crate::decode::lzma::verif_h::abs_symbol))]
+#[cfg_attr(kani, kani::stub(crate::decode::lzma::DecoderState::reset_state, crate::decode::lzma2::verif_h::observing_reset_state))]
+#[cfg_attr(kani, kani::stub(crate::decode::lzbuffer::LzAccumBuffer::from_stream, crate::decode::lzbuffer::verif_h::accum_from_stream_with_capacity))]
+pub fn lzma2_two_lzma_chunks_c0() {
+    two_lzma_chunks::<0>()
+}
+
+//@ harness props=C02,C11,C17 tier=quick unwind=6 unwindset=process_mode:5,decompress:5,default_read_exact:4,two_lzma_chunks:12 mem_gb=6 timeout=600 native=no
+//@ bound: LZMA2 stream of two LZMA chunks (first: class 3 with props 0x5D; second: class 1), one abstract literal each, payloads symbolic; end byte + trailing byte
+#[cfg_attr(kani, kani::proof)]
+#[cfg_attr(kani, kani::stub(std::fmt::format, crate::verif_common::stub_format))]
+#[cfg_attr(kani, kani::stub(std::io::Error::is_interrupted, crate::verif_common::stub_not_interrupted))]
+#[cfg_attr(kani, kani::stub(crate::decode::lzma::DecoderState::process_next_inner, crate::decode::lzma::verif_h::abs_symbol))]
+#[cfg_attr(kani, kani::stub(crate::decode::lzma::DecoderState::reset_state, crate::decode::lzma2::verif_h::observing_reset_state))]
+#[cfg_attr(kani, kani::stub(crate::decode::lzbuffer::LzAccumBuffer::from_stream, crate::decode::lzbuffer::verif_h::accum_from_stream_with_capacity))]
+pub fn lzma2_two_lzma_chunks_c1() {
+    two_lzma_chunks::<1>()
+}
+
+//@ harness props=C02,C11,C17 tier=quick unwind=6 unwindset=process_mode:5,decompress:5,default_read_exact:4,two_lzma_chunks:12 mem_gb=6 timeout=600 native=no
+//@ bound: LZMA2 stream of two LZMA chunks (first: class 3 with props 0x5D; second: class 2), one abstract literal each, payloads symbolic; end byte + trailing byte
+#[cfg_attr(kani, kani::proof)]
+#[cfg_attr(kani, kani::stub(std::fmt::format, crate::verif_common::stub_format))]
+#[cfg_attr(kani, kani::stub(std::io::Error::is_interrupted, crate::verif_common::stub_not_interrupted))]
+#[cfg_attr(kani, kani::stub(crate::decode::lzma::DecoderState::process_next_inner, crate::decode::lzma::verif_h::abs_symbol))]
+#[cfg_attr(kani, kani::stub(crate::decode::lzma::DecoderState::reset_state, crate::decode::lzma2::verif_h::observing_reset_state))]
+#[cfg_attr(kani, kani::stub(crate::decode::lzbuffer::LzAccumBuffer::from_stream, crate::decode::lzbuffer::verif_h::accum_from_stream_with_capacity))]
+pub fn lzma2_two_lzma_chunks_c2() {
+    two_lzma_chunks::<2>()
+}
+
+//@ harness props=C02,C11,C17 tier=quick unwind=6 unwindset=process_mode:5,decompress:5,default_read_exact:4,two_lzma_chunks:12 mem_gb=6 timeout=600 native=no
+//@ bound: LZMA2 stream of two LZMA chunks (first: class 3 with props 0x5D; second: class 3), one abstract literal each, payloads symbolic; end byte + trailing byte
+#[cfg_attr(kani, kani::proof)]
+#[cfg_attr(kani, kani::stub(std::fmt::format, crate::verif_common::stub_format))]
+#[cfg_attr(kani, kani::stub(std::io::Error::is_interrupted, crate::verif_common::stub_not_interrupted))]
+#[cfg_attr(kani, kani::stub(crate::decode::lzma::DecoderState::process_next_inner, crate::decode::lzma::verif_h::abs_symbol))]
+#[cfg_attr(kani, kani::stub(crate::decode::lzma::DecoderState::reset_state, crate::decode::lzma2::verif_h::observing_reset_state))]
+#[cfg_attr(kani, kani::stub(crate::decode::lzbuffer::LzAccumBuffer::from_stream, crate::decode::lzbuffer::verif_h::accum_from_stream_with_capacity))]
+pub fn lzma2_two_lzma_chunks_c3() {
+    two_lzma_chunks::<3>()
+}
+
+//@ harness props=C17,C02 tier=quick unwind=6 unwindset=decompress:4,default_read_exact:4,uncompressed_chunks:12 mem_gb=6 timeout=600 native=no
+//@ bound: LZMA2: one uncompressed chunk of 3 bytes whose last payload byte is missing (input ends inside the chunk)
+#[cfg_attr(kani, kani::proof)]
+#[cfg_attr(kani, kani::stub(std::fmt::format, crate::verif_common::stub_format))]
+#[cfg_attr(kani, kani::stub(std::io::Error::is_interrupted, crate::verif_common::stub_not_interrupted))]
+#[cfg_attr(kani, kani::stub(crate::decode::lzbuffer::LzAccumBuffer::from_stream, crate::decode::lzbuffer::verif_h::accum_from_stream_with_capacity))]
+pub fn lzma2_uncompressed_truncated_payload() {
+    uncompressed_chunks::<1, 3, 1, 1, 2>()
+}
+
+//@ harness props=C17,C02 tier=thorough optional=yes unwind=6 unwindset=decompress:4,default_read_exact:4,uncompressed_chunks:12 mem_gb=6 timeout=600 native=no
+//@ bound: LZMA2: one uncompressed chunk of 3 bytes with the end control byte missing
+#[cfg_attr(kani, kani::proof)]
+#[cfg_attr(kani, kani::stub(std::fmt::format, crate::verif_common::stub_format))]
+#[cfg_attr(kani, kani::stub(std::io::Error::is_interrupted, crate::verif_common::stub_not_interrupted))]
+#[cfg_attr(kani, kani::stub(crate::decode::lzbuffer::LzAccumBuffer::from_stream, crate::decode::lzbuffer::verif_h::accum_from_stream_with_capacity))]
+pub fn lzma2_missing_end_byte() {
+    uncompressed_chunks::<1, 3, 1, 1, 1>()
+}
